@@ -75,6 +75,14 @@ def run(pid, seed=0):
         for fn in sorted(os.listdir(rdir)):
             if fn.endswith('.diff'):
                 items.append(('benign', fn[:-5], None, None, None, None, os.path.join(rdir, fn)))
+    # correct feature additions written by independent sub-agents (new data sources, filters, an output), each
+    # switched on in the scratch config.h: every check must stay silent on them as well
+    fdir = os.path.join(VERIF, 'selftest', 'features')
+    if os.path.isdir(fdir):
+        macros = json.load(open(os.path.join(fdir, 'MACROS.json')))
+        for fn in sorted(os.listdir(fdir)):
+            if fn.endswith('.diff'):
+                items.append(('benign', 'feature-' + fn[:-5], None, None, None, macros.get(fn[:-5], []), os.path.join(fdir, fn)))
     # confirmed seeded changes of independent sub-agents
     rp = os.path.join(VERIF, 'seeded', 'RESULTS.json')
     if os.path.exists(rp):
@@ -90,7 +98,15 @@ def run(pid, seed=0):
         kind, iid, rel, old, new, expect, patch = item
         d, sc = _scratch()
         try:
-            if patch:
+            if patch and iid.startswith('feature-'):
+                # hunks for the tests/ directory (not copied) are skipped; the feature is switched on by hand
+                subprocess.run(['patch', '-s', '-f', '-p1', '-d', sc, '-i', patch], stdout=subprocess.PIPE, stderr=subprocess.STDOUT)
+                with open(os.path.join(sc, 'config.h'), 'a') as f:
+                    for m in (expect or []):
+                        f.write('\n#define %s 1\n' % m)
+                applied = True
+                expect = None
+            elif patch:
                 p = subprocess.run(['patch', '-s', '-p1', '-d', sc, '-i', patch], stdout=subprocess.PIPE, stderr=subprocess.STDOUT)
                 applied = p.returncode == 0
             elif iid.startswith('b13-'):
